@@ -26,6 +26,9 @@ TRUSTED = [
 class Reader(Task):
     prop = "C01"
     reach = "U"
+    # the three per-box readers (and the three per-file scanners) are siblings: one that delegates to another is executed
+    # through the other's real body (the postcondition is still the delegating reader's own)
+    inline = tuple(PC + f for f in ("mp_read_box_single_field", "mp_read_box_slice_field", "mp_read_box_index_field"))
 
     def __init__(self, fn, nd, form):
         self.fn, self.nd, self.form = fn, nd, form
